@@ -166,7 +166,7 @@ def gen_case(rnd, prop, tier):
         newrec = list(order[-1]) if how == 'rare' else list(order[0])
     if adj == 'replace' and newrec == recs[idx]:
         newrec[0] = (newrec[0] + 1) % sizes[0]
-    eps = rnd.choice([0.05, 0.3, 1.0, 1.0, 3.0, 10.0])
+    eps = rnd.choice([0.05, 0.3, 1.0, 1.0, 3.0, 10.0, 30.0, 60.0])    # large eps = low noise: one record becomes comparable to data-dependent thresholds
     delta = rnd.choice([1e-12, 1e-10, 1e-9, 4e-9, 1e-6, 1e-3])
     params = {}
     if mech == 'aim':
